@@ -283,3 +283,232 @@ def install(I):
         return [(s1, ok(v))]
     I.contracts[PICK] = pick_part
     I.contracts[REMOVE] = remove_part
+
+
+# ----------------------------------------------------------------------------------------------------------------
+# exact versions of further str operations (used by C16): active for strings registered in I.xtext without a rest
+def _text_of(xt):
+    return ''.join(c[1] for c in xt.chars) if all(c[0] == 'c' for c in xt.chars) else None
+
+
+def install_exact_strings(I):
+    from .models import str_eq
+    m_split = I.models.get('core::str::<impl str>::split')
+    m_eq = I.models.get('core::str::traits::<impl std::cmp::PartialEq for str>::eq')
+    m_strip = I.models.get('core::str::<impl str>::strip_prefix')
+    m_contains = I.models.get('core::str::<impl str>::contains')
+    m_chars = I.models.get('core::str::<impl str>::chars')
+    m_lower = I.find_model('std::str::<impl str>::to_lowercase')
+    m_empty = I.find_model('core::str::<impl str>::is_empty')
+
+    def xt_of(I_, st, v):
+        sv = strv_of(I_, st, v)
+        xt = I_.xtext.get(sv.ident) if sv is not None else None
+        if xt is None and sv is not None and sv.lits is not None and len(sv.lits) == 1:
+            t = next(iter(sv.lits))
+            xt = XText([('c', ch) for ch in t], {}, False)
+        return xt
+
+    def split(I_, st, args, dty, site):
+        xt = xt_of(I_, st, args[0])
+        pat = pattern_of(I_, st, args[1]) if xt is not None and len(args) > 1 else None
+        if xt is not None and not xt.rest and pat is not None and pat[0] == 'char' and not pat[1].isdigit() and site['callee'].endswith('::split'):
+            parts = [[]]
+            for c in xt.chars:
+                if c == ('c', pat[1]):
+                    parts.append([])
+                else:
+                    parts[-1].append(c)
+            vals = tuple(('str', new_string(I_, st, XText(p, xt.nums, False))) for p in parts)
+            return [(st, ('it', 'seq', vals, 0, False))]
+        return m_split(I_, st, args, dty, site)
+
+    from . import models as M
+    base_str_eq = M.str_eq
+
+    def xt_sv(sv):
+        xt = I.xtext.get(sv.ident)
+        if xt is None and sv.lits is not None and len(sv.lits) == 1:
+            xt = XText([('c', ch) for ch in next(iter(sv.lits))], {}, False)
+        return xt
+
+    def exact_str_eq(I_, st, x, y, ne=False):
+        if I_ is I:
+            a, b = xt_sv(x), xt_sv(y)
+            r = eq_xt(st, a, b, ne)
+            if r is not None:
+                return r
+        return base_str_eq(I_, st, x, y, ne)
+    M.str_eq = exact_str_eq
+
+    def eq_xt(st, a, b, ne):
+        if a is not None and b is not None and not a.rest and not b.rest:
+            if len(a.chars) != len(b.chars):
+                return [(st, const_int(1 if ne else 0, 'bool'))]
+            undecided = False
+            for x, y in zip(a.chars, b.chars):
+                if x[0] == 'c' and y[0] == 'c':
+                    if x[1] != y[1]:
+                        return [(st, const_int(1 if ne else 0, 'bool'))]
+                elif (x[0] == 'c' and not x[1].isdigit()) or (y[0] == 'c' and not y[1].isdigit()):
+                    return [(st, const_int(1 if ne else 0, 'bool'))]
+                else:
+                    undecided = True
+            if not undecided:
+                return [(st, const_int(0 if ne else 1, 'bool'))]
+            # digits of a symbolic number against literal digits: equal exactly when the number is that value
+            vals = {}
+            for (x, y) in list(zip(a.chars, b.chars)) + list(zip(b.chars, a.chars)):
+                if x[0] == 'd' and y[0] == 'c':
+                    vals.setdefault((id(a.nums if x in a.chars else b.nums), x[1]), {})[x[2]] = y[1]
+            s_eq, s_ne = st.clone(), st.clone()
+            feasible = True
+            single = None
+            for src in (a, b):
+                for pid, (vid, nd) in src.nums.items():
+                    ds = vals.get((id(src.nums), pid))
+                    if ds is not None and len(ds) == nd:
+                        n = int(''.join(ds[k] for k in range(nd)))
+                        if not D.refine_cmp(s_eq, 'Eq', vid, D.const_vid(n)) or not D.set_iv(s_eq, vid, n, n):
+                            feasible = False
+                        single = (vid, n) if single is None else False
+            outs = []
+            if feasible:
+                outs.append((s_eq, const_int(0 if ne else 1, 'bool')))
+            if single:
+                if D.refine_cmp(s_ne, 'Ne', single[0], D.const_vid(single[1])):
+                    outs.append((s_ne, const_int(1 if ne else 0, 'bool')))
+            else:
+                outs.append((s_ne, const_int(1 if ne else 0, 'bool')))
+            return outs
+        return None
+
+    def eq(I_, st, args, dty, site):
+        a, b = xt_of(I_, st, args[0]), xt_of(I_, st, args[1])
+        if a is not None and b is not None and not a.rest and not b.rest:
+            ne = site['callee'].endswith('::ne')
+            if len(a.chars) != len(b.chars):
+                return [(st, const_int(1 if ne else 0, 'bool'))]
+            undecided = False
+            for x, y in zip(a.chars, b.chars):
+                if x[0] == 'c' and y[0] == 'c':
+                    if x[1] != y[1]:
+                        return [(st, const_int(1 if ne else 0, 'bool'))]
+                elif (x[0] == 'c' and not x[1].isdigit()) or (y[0] == 'c' and not y[1].isdigit()):
+                    return [(st, const_int(1 if ne else 0, 'bool'))]
+                else:
+                    undecided = True
+            if not undecided:
+                return [(st, const_int(0 if ne else 1, 'bool'))]
+            return [(st.clone(), const_int(1, 'bool')), (st.clone(), const_int(0, 'bool'))]
+        return m_eq(I_, st, args, dty, site)
+
+    def strip_prefix(I_, st, args, dty, site):
+        xt = xt_of(I_, st, args[0])
+        pat = pattern_of(I_, st, args[1]) if xt is not None else None
+        if xt is not None and not xt.rest and pat is not None and pat[0] in ('char', 'str') and site['callee'].endswith('strip_prefix'):
+            t = pat[1]
+            if len(t) <= len(xt.chars) and all(c == ('c', ch) for c, ch in zip(xt.chars, t)):
+                return [(st, some(('str', new_string(I_, st, XText(xt.chars[len(t):], xt.nums, False)))))]
+            if any(c[0] == 'c' and c[1] != ch or c[0] == 'd' and not ch.isdigit() for c, ch in zip(xt.chars, t)) or len(t) > len(xt.chars):
+                return [(st, none())]
+        return m_strip(I_, st, args, dty, site)
+
+    def contains(I_, st, args, dty, site):
+        xt = xt_of(I_, st, args[0])
+        pat = pattern_of(I_, st, args[1]) if xt is not None else None
+        if xt is not None and not xt.rest and pat is not None and pat[0] == 'char' and not pat[1].isdigit() and site['callee'].endswith('contains'):
+            return [(st, const_int(1 if ('c', pat[1]) in xt.chars else 0, 'bool'))]
+        return m_contains(I_, st, args, dty, site)
+
+    def chars(I_, st, args, dty, site):
+        xt = xt_of(I_, st, args[0])
+        if xt is not None and not xt.rest and strv_of(I_, st, args[0]).ident in I_.xtext:
+            vals = []
+            for c in xt.chars:
+                vals.append(const_int(ord(c[1]), 'char') if c[0] == 'c' else I_.top(st, {'k': 'char'}, 'digit', lo=48, hi=57))
+            return [(st, ('it', 'seq', tuple(vals), 0, False))]
+        return m_chars(I_, st, args, dty, site)
+
+    def lower(I_, st, args, dty, site):
+        xt = xt_of(I_, st, args[0])
+        if xt is not None and not xt.rest:
+            low = XText([('c', c[1].lower()) if c[0] == 'c' else c for c in xt.chars], xt.nums, False)
+            return [(st, new_string_obj(I_, st, new_string(I_, st, low)))]
+        return m_lower(I_, st, args, dty, site) if m_lower else None
+
+    def is_empty(I_, st, args, dty, site):
+        xt = xt_of(I_, st, args[0])
+        if xt is not None and not xt.rest:
+            return [(st, const_int(0 if xt.chars else 1, 'bool'))]
+        return m_empty(I_, st, args, dty, site) if m_empty else None
+
+    def parse(I_, st, args, dty, site):
+        xt = xt_of(I_, st, args[0])
+        T = dty['args'][0] if dty and dty.get('args') else None
+        tn = tyname(T) if T else None
+        if xt is not None and not xt.rest and tn:
+            pr = parse_int(I_, st, xt, tn)
+            if pr[0] == 'err':
+                return [(st, err(I_.top(st, dty['args'][1], 'parse error')))]
+            if pr[0] == 'ok':
+                v = pr[1]
+                lo, hi = D.get_iv(st, v[1])
+                tlo, thi = range_of_name(tn)
+                outs = []
+                s1 = st.clone()
+                if D.set_iv(s1, v[1], max(lo, tlo), min(hi, thi)):
+                    outs.append((s1, ok(v)))
+                if lo < tlo or hi > thi:
+                    s2 = st.clone()
+                    if hi > thi and D.set_iv(s2, v[1], max(lo, thi + 1), hi):
+                        outs.append((s2, err(I_.top(s2, dty['args'][1], 'parse error'))))
+                return outs
+        return m_parse(I_, st, args, dty, site)
+    m_parse = I.models.get('core::str::<impl str>::parse')
+    m_search = I.models.get('std::iter::Iterator::all')
+
+    def search(I_, st, args, dty, site):
+        """all / any / find over a known short sequence: the closure is evaluated element by element"""
+        it = deref(I_, st, args[0])
+        which = site['callee'].rsplit('::', 1)[1]
+        if it is not None and it[0] == 'it' and it[1] == 'seq' and len(it[2]) - it[3] <= 12 and which in ('all', 'any', 'find'):
+            elems = it[2][it[3]:]
+            outs = []
+            work = [(st.clone(), 0)]
+            while work:
+                s, i = work.pop()
+                if i == len(elems):
+                    outs.append((s, const_int(1 if which == 'all' else 0, 'bool') if which != 'find' else none()))
+                    continue
+                e = elems[i]
+                arg = ('r', I_.alloc(s, e)) if which == 'find' else e
+                rs = I_.call_closure(s, args[1], [arg], site) or []
+                for s2, b in rs:
+                    if b[0] != 'i':
+                        return m_search(I_, st, args, dty, site)
+                    lo, hi = D.get_iv(s2, b[1])
+                    for val in (0, 1):
+                        if lo <= val <= hi:
+                            s3 = s2.clone()
+                            D.set_iv(s3, b[1], val, val)
+                            stop = (which == 'all' and val == 0) or (which in ('any', 'find') and val == 1)
+                            if stop:
+                                outs.append((s3, const_int(0 if which == 'all' else 1, 'bool') if which != 'find' else some(e)))
+                            else:
+                                work.append((s3, i + 1))
+            return outs
+        return m_search(I_, st, args, dty, site)
+    for n in ('std::iter::Iterator::all', 'std::iter::Iterator::any', 'std::iter::Iterator::find'):
+        I.models[n] = search
+    I.models['core::str::<impl str>::split'] = split
+    I.models['core::str::traits::<impl std::cmp::PartialEq for str>::eq'] = eq
+    for n in ('<std::string::String as std::cmp::PartialEq<str>>::eq', "<std::string::String as std::cmp::PartialEq<&'a str>>::eq",
+              '<std::string::String as std::cmp::PartialEq>::eq', "<str as std::cmp::PartialEq<std::string::String>>::eq"):
+        I.models[n] = eq
+    I.models['core::str::<impl str>::strip_prefix'] = strip_prefix
+    I.models['core::str::<impl str>::contains'] = contains
+    I.models['core::str::<impl str>::chars'] = chars
+    I.models['std::str::<impl str>::to_lowercase'] = lower
+    I.models['core::str::<impl str>::is_empty'] = is_empty
+    I.models['core::str::<impl str>::parse'] = parse
